@@ -316,13 +316,9 @@ class Work:
         return d
 
     def close(self):
-        # files may have odd modes
-        for r, ds, fs in os.walk(self.root):
-            for d in ds:
-                try:
-                    os.chmod(os.path.join(r, d), 0o700)
-                except OSError:
-                    pass
+        # files may have odd modes; trees may be very deep
+        subprocess.run(["chmod", "-R", "u+rwx", self.root], capture_output=True)
+        subprocess.run(["rm", "-rf", self.root], capture_output=True)
         shutil.rmtree(self.root, ignore_errors=True)
         try:
             os.rmdir(WORKROOT)
